@@ -434,10 +434,20 @@ func H_C14_final(kind, a int) {
 	assume(len(x) > 0)
 	last := x[len(x)-1]
 	assume(last != '\n' && last != '\r')
-	h1, _ := renderPlain(cloneBytes(x), true)
+	h1, b1 := renderPlain(cloneBytes(x), true)
 	y := append(cloneBytes(x), '\n')
-	h2, _ := renderPlain(y, true)
+	h2, b2 := renderPlain(y, true)
 	check(vsame(normHTML(h2), normHTML(h1)), "C14.final-newline")
+	// the clause does not depend on how soft line breaks are rendered
+	for _, m := range []SoftBreakBehavior{SoftBreakSpace, SoftBreakHarden} {
+		g1 := renderWith(&HTMLRenderer{IgnoreRaw: true, SoftBreakBehavior: m}, b1)
+		g2 := renderWith(&HTMLRenderer{IgnoreRaw: true, SoftBreakBehavior: m}, b2)
+		if m == SoftBreakSpace {
+			check(vsame(normHTML(g2), normHTML(g1)), "C14.final-newline.soft-space")
+		} else {
+			check(vsame(normHTML(g2), normHTML(g1)), "C14.final-newline.soft-harden")
+		}
+	}
 	vdigest(h1)
 }
 
